@@ -24,3 +24,6 @@ import LyModel.Props.C06UONest
 #print axioms LyModel.Props.C06UO.diff_userord_ll_in_container_sim
 #print axioms LyModel.Props.C06UO.apply_diff_userord_ll_in_container
 #print axioms LyModel.Props.C06UO.apply_diff_userord_ll_in_container_dec
+#print axioms LyModel.Props.C06UO.keyPredicate_roundtrip
+#print axioms LyModel.Props.C06UO.apply_diff_userord_flat_kl_multikey
+#print axioms LyModel.Props.C06UO.apply_diff_userord_flat_kl_multikey_dec
